@@ -409,6 +409,11 @@ func body(c *sched.Ctl, cs Case, v *ev.Verdict) {
 			return b
 		}))
 	}
+	type keptList struct {
+		got, want []int
+		who       string
+	}
+	var kept []keptList
 	var kd *keyed.Keyed[int, int]
 	var rcd *keyed.KeyedRefCount[int, int]
 	lg := logrus.New()
@@ -558,6 +563,12 @@ func body(c *sched.Ctl, cs Case, v *ev.Verdict) {
 		// both parts are always evaluated: a key-set divergence (C06) must not hide an
 		// instance that is left running after its key's removal (C07), and vice versa
 		defer quiescent07(where)
+		for _, kl := range kept {
+			if !eqInts(kl.got, kl.want) {
+				fail("C06", "keyed:result-overwritten", "%s: the list returned earlier by SyncKeys (%s) was %v and now reads %v", where, kl.who, kl.want, kl.got)
+				return
+			}
+		}
 		// C06: key set and data
 		got := sortedCopy(getKeys())
 		want := m.sortedKeys()
@@ -764,6 +775,8 @@ func body(c *sched.Ctl, cs Case, v *ev.Verdict) {
 				if !eqInts(a, wa) || !eqInts(sortedCopy(r), wr) {
 					fail("C06", "keyed:synckeys-result", "SyncKeys(%v,%v)=(added %v, removed %v), the model says (added %v, removed %v)", op.Keys, op.Restart, a, sortedCopy(r), wa, wr)
 				}
+				// the returned lists are the caller's: later calls do not change them
+				kept = append(kept, keptList{a, append([]int(nil), a...), label + " added"}, keptList{r, append([]int(nil), r...), label + " removed"})
 				checkCancelled("SyncKeys")
 			})
 		case "getkey":
